@@ -22,7 +22,9 @@ OS-level cases:  -m mask  nops op...  nans ans...  [n1]  decision...     (negati
   SIGALRM is signal 4 (not in getSignals()): op 8 = setAlarm(n > 0) (code 14), op 9 = setAlarm(0) (code 15); mask bit 3 = SIGALRM
   ignored by the environment, mask bit 4 (16) = main() is run with --time-limit (it calls setAlarm itself); an expiring alarm is
   raise(SIGALRM) at a scheduling point; "40"/"41" records: d1 d2 d3 d4 r.  Answer codes in OS-level cases: 0 stop, 2 = the callback
-  first calls setAlarm(n > 0) and continues, 3 = calls setAlarm and stops, anything else continue.
+  first calls setAlarm(n > 0) and continues, 3 = calls setAlarm and stops, 4 = the callback first calls blockSignals() and leaves that
+  block to the main flow to release (NOT in the Coq model: oracle only, see obs_equal), 5 = the callback calls blockSignals();
+  unblockSignals(true) (balanced), anything else continue.
   op 10 (OS-level only, ends the flow) = run() throws after the scheduling point "7 ..": main() catches and calls shutdown(true) =
   fetch_and_inc(blocked_); killAlarm(); onUnhandledException() [an override that returns: scheduling-point code 16 = the error report is
   running, arrivals can be scheduled there; its step = it returns]; shutdown() [prints the final record "0 .."].
@@ -64,7 +66,7 @@ RULE = ('cases = (main flow over block/unblock(false)/unblock(true)/shutdown wit
         'construct / destroy / copy operations before and between the arrivals, a third of it about the alarm: SIGALRM environment-ignored x '
         'setAlarm in the flow / time limit x first / second run x raise(SIGALRM) later, re-arming answers) and random long schedules '
         '(thorough: DIRECT <= 5 ops / 3 arrivals, <= 3 ops / 4 arrivals, 3 numbers; OS-LEVEL <= 4 ops / 3 arrivals, <= 3 ops / 4 arrivals, '
-        '3 numbers); non-trivial = at least one arrival; distinct = distinct case tuples')
+        '3 numbers); OS-LEVEL callbacks that call blockSignals() themselves and leave the release to the main flow (answer 4: oracle only, not compared with the model) - all flows of <= 3 operations well nested from depth 1 with <= 2 further arrivals, plus random; non-trivial = at least one arrival; distinct = distinct case tuples')
 TRUSTED_BASE = ['__sync_fetch_and_add/sub/and are atomic with respect to signal handlers (one atomic step each)',
                 'signal handlers nest LIFO on the delivering thread; a synchronous call of processSignal at a yield point is what an '
                 'interrupting handler does there (verif hook d9db889: POTASSCO_VERIF_YIELD between the atomic steps)',
@@ -84,7 +86,10 @@ TRUSTED_BASE = ['__sync_fetch_and_add/sub/and are atomic with respect to signal 
                 'props/C18.py oracle (ghost accounting and handler-in-progress tracking re-done on the implementation trace) and its '
                 'schedule enumerator']
 ASSUMPTIONS = ['main flow well nested (never more unblockSignals than blockSignals/shutdown in a prefix)',
-               'onSignal itself does not call block/unblockSignals; its answer is arbitrary data',
+               'MODEL: onSignal itself does not change the nesting count (its answer is data; it may re-arm the alarm; a balanced block/unblock pair '
+               'inside the callback - answer 5 - is invisible to the model); a callback that calls blockSignals() and leaves the block to the main '
+               'flow (answer 4) is exercised on the implementation and judged by the python oracle only: the Coq model and its theorems do not '
+               'cover it and the model/implementation comparison is skipped for OS-level cases whose answer list contains a 4 (obs_equal)',
                'the Windows alarm thread (a second thread calling processSignal) is outside the model',
                'when arrivals interrupt one another between the test and the write of pending_, the later write wins '
                '(the property text allows "the first" only for non-interrupting arrivals); after a callback answered stop '
@@ -168,7 +173,8 @@ def tl_of(mask):
 
 OPN = {1: 'Block', 2: 'Unblock(false)', 3: 'Unblock(true)', 4: 'Shutdown', 5: 'NewOtherApp', 6: 'DeleteOtherApp', 7: 'CopyAndDropSelf',
        8: 'setAlarm(n>0)', 9: 'setAlarm(0)', 10: 'run()-throws:shutdown(true)+error-report-that-returns'}
-ANSN = {0: 'stop', 2: 'setAlarm-then-continue', 3: 'setAlarm-then-stop'}
+ANSN = {0: 'stop', 2: 'setAlarm-then-continue', 3: 'setAlarm-then-stop', 4: 'blockSignals-inside-callback-then-continue',
+        5: 'block+unblock(true)-inside-callback-then-continue'}
 OSM = {1: 'first main()', 2: 'second main() after an empty run', 3: 'first main() then second main() with the same flow'}
 
 
@@ -266,12 +272,14 @@ def os_sim_step(st, d4, code):
     if k == 14 or (k == 2 and code in (2, 3)):
         d4 = 1                                  # setAlarm(n > 0): handler installed whatever was there
     st2 = sim_step(st, code not in (0, 3))
+    if k == 2 and code == 4:
+        st2 = (st2[0] + 1,) + tuple(st2[1:])    # the callback calls blockSignals() and does not release it
     if top is not None and len(st2[4]) < len(st[4]) and top[0] == 4 and not top[2]:
         d4 = 1                                  # ~ScopedSig of a SIGALRM activation
     return st2, d4
 
 
-def enumerate_schedules(ops, max_arr, sigs, answers_free=True, limit=None, os_pre=None, d4=0, codes=None):
+def enumerate_schedules(ops, max_arr, sigs, answers_free=True, limit=None, os_pre=None, d4=0, codes=None, start=None):
     """all (answers, decisions) of complete runs of the flow with at most max_arr arrivals;
     os_pre = set of numbers ignored before main(): OS-level arrivals (an arrival of a number that is ignored - before main()
     or because its handler is in progress - is discarded and changes nothing); d4 = initial disposition of SIGALRM;
@@ -307,7 +315,10 @@ def enumerate_schedules(ops, max_arr, sigs, answers_free=True, limit=None, os_pr
         else:
             st2, e4 = os_sim_step(st, d4, 1)
             dfs(st2, left, ds + [0], ans, e4, cur)
-    dfs((0, 0, 0, ops, ()), max_arr, [], [], d4, None)
+    if start is not None:       # (state, decisions so far, answers so far)
+        dfs(start[0], max_arr, list(start[1]), list(start[2]), d4, None)
+    else:
+        dfs((0, 0, 0, ops, ()), max_arr, [], [], d4, None)
     return out
 
 
@@ -386,7 +397,10 @@ def account(c, obs):
     return account_ops(ops, obs)
 
 
-def account_ops(ops, obs):
+def account_ops(ops, obs, codes=None):
+    """codes = answer codes of the callbacks of this trace in invocation order (OS-level cases): 4 = the callback takes a block
+    that only the main flow releases"""
+    cbi = 0
     ops = [o for o in ops if o in (1, 2, 3, 4, 10)]
     if 10 in ops:
         ops = ops[:ops.index(10) + 1]       # run() throws there: the rest of the flow is never executed
@@ -487,6 +501,12 @@ def account_ops(ops, obs):
                 bad('callback-after-stop')
             if b != 1:
                 bad('callback-with-nesting-count-%d' % b)
+            code_ = codes[cbi] if codes is not None and cbi < len(codes) else 1
+            cbi += 1
+            if code_ == 4:              # blockSignals() inside the callback: the application now holds a block
+                exp_b = b + 1
+                depth += 1
+                top['cbb'] = top.get('cbb', 0) + 1
             setfate(top['id'], 'delivered')
             stats['delivered'] += 1
             if top['deferred']:
@@ -531,8 +551,8 @@ def account_ops(ops, obs):
             top['pc'] = 6
         elif k == 6:
             exp_b = b - 1
-            if top['r'] is not None and b2 != top['r']:
-                bad('nesting-count-not-restored')
+            if top['r'] is not None and b2 != top['r'] + top.get('cbb', 0):
+                bad('nesting-count-not-restored')       # previous value + the blocks the callback itself took and left to the main flow
             stack.pop()
         elif k == 7:
             exp_b = b + 1
@@ -758,6 +778,7 @@ def os_pass(ev, pre, ever, bad, stats, al):
             if k == 2 and nxt[0] == 'CB':
                 code = al['codes'][al['cb']] if al['cb'] < len(al['codes']) else 1
                 al['cb'] += 1
+                al.setdefault('run_codes', []).append(code)
                 if code in (2, 3):
                     al['set'], al['d4'] = True, 1       # the callback re-arms the alarm as its first action
             if k == 3 and nxt[0] == 'CE' and nxt[1] == 0 and stk:
@@ -802,7 +823,7 @@ def account_os(c, obs):
         plain = os_pass(ev, pre, ever, bad, stats, al)
         if plain is None:
             return sigs + ['trace-malformed'], stats
-        s2, st2 = account_ops(ops, plain)
+        s2, st2 = account_ops(ops, plain, codes=al.pop('run_codes', []))
         for x in s2:
             bad(x)
         for k_, v in st2.items():
@@ -873,7 +894,69 @@ FIXED_OS = [
     (3, 0, [10], [], [0, 1], [1, 0, 0, 0, 0, 0, 2], 'shutdown-error-report-two-runs'),
     (1, 16, [10], [], [0, 4, 0, 0, 0, 0, 1], None, 'shutdown-error-report-alarm-of-the-time-limit'),
     (1, 0, [8, 10], [2], [4, 0, 0, 0, 0, 0, 0, 0, 4], None, 'shutdown-error-report-alarm-rearmed'),
+    # the callback itself calls blockSignals() (answer 4) and lets the main flow release it; answer 5 = balanced pair inside the callback
+    (1, 0, [3], [4], [1, 0, 0, 0, 0, 0, 0, 2], None, 'callback-takes-block-flow-releases-then-later-signal'),
+    (1, 0, [3], [4], [1, 0, 0, 0, 0, 2, 0, 0, 0, 0, 0, 0, 0, 0, 0, 0, 0, 0, 1], None, 'callback-takes-block-next-signal-remembered-delivered-on-release'),
+    (1, 0, [1, 3, 2], [4, 1], [1, 0, 0, 0, 0, 0, 2], None, 'callback-takes-block-nested-with-flow-blocks'),
+    (2, 0, [2], [4], [1, 0, 0, 0, 0, 2, 0, 0, 0, 0, 0, 0, 3], None, 'callback-takes-block-second-main-drop-on-release'),
+    (1, 0, [1, 3], [5, 5], [1, 0, 0, 0, 0, 0, 2], None, 'callback-balanced-block-unblock-pair'),
 ]
+
+
+def flows_from(depth0, maxlen, alphabet=(1, 2, 3)):
+    """flows that are well nested when the application already holds depth0 blocks (taken inside a callback)"""
+    res = []
+    frontier = [([], depth0)]
+    for _ in range(maxlen):
+        nf = []
+        for f, d in frontier:
+            for o in alphabet:
+                if o == 1:
+                    nf.append((f + [o], d + 1))
+                elif d > 0:
+                    nf.append((f + [o], d - 1))
+        res += [f for f, _ in nf]
+        frontier = nf
+    return res
+
+
+def callback_block_cases(maxops, maxarr, tier_codes=(1, 5)):
+    """OS-level: signal a arrives before the first operation; its callback calls blockSignals() (answer code 4) and continues; the main
+    flow releases that block later (or never); every schedule of further arrivals"""
+    out = []
+    for a in (1, 2):
+        # decisions so far: arrival, inc, callback entry, callback exit, dec -> blocked_ = 1, nothing remembered
+        for f in [[]] + flows_from(1, maxops):
+            st = (1, 0, 0, tuple(f), ())
+            for ans, ds in enumerate_schedules(f, maxarr, (1, 2), os_pre=set(), codes=tier_codes, start=(st, [a, 0, 0, 0, 0], [4])):
+                out.append(enc_os(1, 0, f, ans, ds))
+    return out
+
+
+def callback_block_random(rnd, count):
+    out = []
+    fl = flows_from(1, 4)
+    for _ in range(count):
+        f = rnd.choice(fl)
+        a = rnd.randint(1, 3)
+        ans = [4] + [rnd.choice([1, 1, 5, 0, 2]) for _ in range(rnd.randint(0, 3))]
+        ds = complete(f, [a], ans, set())
+        for _ in range(rnd.randint(1, 3)):
+            ds = ds[:rnd.randint(5, len(ds))] + [rnd.randint(1, 3)]
+            ds = complete(f, ds, ans, set())
+        out.append(enc_os(rnd.choice([1, 1, 2]), 0, f, ans, ds))
+    return out
+
+
+def obs_equal(case, impl, model):
+    """the Coq model has no callbacks that call blockSignals() themselves (answer code 4 is 'continue' there): for OS-level cases
+    with such an answer only the oracle judges the implementation (notes/C18.md, EXHAUSTIVE_SPACE)"""
+    if impl == model:
+        return True
+    if is_os(case):
+        t = decode_os(case)
+        return t is not None and 4 in t[3]
+    return False
 
 
 def with_alarm(rnd, f):
@@ -997,6 +1080,7 @@ def gen(seed, tier):
         spec_os = [(3, 3, (1, 2), 1, 0), (4, 2, (1, 2), 1, 0), (2, 2, (1, 2), 2, 0), (2, 2, (1, 2), 1, 1)]
         spec_obj = [(3, 2, 1), (2, 2, 2)]
         spec_alarm = [(3, 2, 1, 0, (1, 2)), (3, 2, 1, 8, (1, 2)), (2, 2, 1, 24, (1, 2)), (2, 2, 2, 8, (1, 2)), (1, 2, 2, 24, (1, 2, 3, 0))]
+        spec_cbb, ncbb = (3, 2), 1500
         # shutdown(true): (max ops over {block, unblock(true)} in front of the throwing op, max arrivals, numbers, mode, mask)
         spec_err = [(2, 3, (1, 2), 1, 0), (3, 2, (1, 2), 1, 0), (1, 2, (1, 2), 2, 0), (1, 2, (4, 1), 1, 16), (1, 2, (4, 1), 1, 24)]
         nrand, nrand_os, ntarget = 3000, 3000, 2400
@@ -1005,6 +1089,7 @@ def gen(seed, tier):
         spec_os = [(4, 3, (1, 2), 1, 0), (3, 4, (1, 2), 1, 0), (3, 3, (1, 2, 3), 1, 0), (3, 3, (1, 2), 2, 0), (3, 2, (1, 2, 3), 1, 5)]
         spec_obj = [(4, 2, 1), (3, 3, 1), (3, 2, 2)]
         spec_alarm = [(3, 3, 1, 0, (1, 2)), (3, 3, 1, 8, (1, 2)), (4, 2, 1, 8, (1, 2)), (3, 2, 1, 24, (0, 1, 2, 3)), (3, 2, 2, 8, (1, 2)), (2, 3, 2, 24, (0, 1, 2, 3))]
+        spec_cbb, ncbb = (4, 3), 30000
         spec_err = [(3, 3, (1, 2), 1, 0), (2, 4, (1, 2), 1, 0), (2, 3, (1, 2, 3), 1, 0), (2, 3, (1, 2), 2, 0), (2, 3, (4, 1), 1, 16), (2, 3, (4, 1), 1, 24), (2, 2, (1, 2), 1, 1)]
         nrand, nrand_os, ntarget = 200000, 80000, 30000
     else:
@@ -1012,6 +1097,7 @@ def gen(seed, tier):
         spec_os = [(2, 2, (1, 2), 1, 0)]
         spec_obj = [(2, 2, 1)]
         spec_alarm = [(2, 2, 1, 8, (1, 2))]
+        spec_cbb, ncbb = (2, 2), 500
         spec_err = [(1, 2, (1, 2), 1, 0)]
         nrand, nrand_os, ntarget = 3000, 3000, 2400
     seen = set()
@@ -1068,6 +1154,13 @@ def gen(seed, tier):
                     seen.add(t)
                     out.append((c, {'kind': 'os-exhaustive-two-runs'}))
     out += os_targeted(rnd, ntarget)
+    for c in callback_block_cases(*spec_cbb):
+        t = tuple(c)
+        if t not in seen:
+            seen.add(t)
+            out.append((c, {'kind': 'os-exhaustive-callback-takes-block-ops%d-arr%d' % spec_cbb}))
+    for c in callback_block_random(rnd, ncbb):
+        out.append((c, {'kind': 'os-random-callback-takes-block'}))
     for _ in range(nrand_os):
         out.append((random_os_case(rnd, rnd.randint(0, 8), rnd.randint(1, 6), rnd.choice([2, 3, 3, 4])), {'kind': 'os-random-long'}))
     for (maxops, maxarr, sg) in spec:
@@ -1232,4 +1325,6 @@ EXHAUSTIVE_SPACE = ('quick: every schedule (arrival decisions at every yield poi
                     'OS-LEVEL flows that end with an exception (ops over {block, unblock(true)} then "run() throws" = shutdown(true) with an error report that returns; arrivals before the increment, inside the report, after it): '
                     'quick <= 3 ops (incl. the throw) / <= 3 arrivals, <= 4/2, <= 2/2 inside a second main(), <= 2/2 of {SIGALRM, 1} with --time-limit (SIGALRM environment-ignored or not); thorough <= 4/3, <= 3/4, <= 3/3 of 3 numbers, <= 3/3 second main(), <= 3/3 alarm, <= 3/2 with number 1 environment-ignored. NOT enumerated: interruptions of sigHandler between its entry and '
                     'signal(sig,SIG_IGN) / between the return of processSignal and signal(sig,sigHandler) (no yield point there). '
+                    'Callbacks that take a block themselves (answer 4; oracle only, NOT compared with the model, NOT covered by the theorems): quick = signal 1 or 2 arrives before the first operation, its '
+                    'callback blocks, every flow of <= 3 operations that is well nested from depth 1, <= 2 further arrivals of {1,2} with answers continue / balanced pair; thorough <= 4 ops / <= 3 arrivals; plus random. '
                     'The unbounded claim is carried by the theorems, not by this enumeration.')
